@@ -65,3 +65,10 @@ TRUSTED = {
         "It::len: the lengths of two live slices of non-zero-sized elements do not sum beyond usize::MAX",
     ],
 }
+
+
+# thorough tier: the scheduler properties are verified for both feature sets (`parallel` on and off)
+NOPAR = ("shred-derive",)
+for _pid in ("C01", "C02", "C03", "C04", "C07", "C10", "C12", "C13", "C18", "C20"):
+    _r = PROPS[_pid]["runs"]
+    PROPS[_pid]["runs_thorough"] = _r + [dict(x, features=NOPAR) for x in _r]
